@@ -84,7 +84,11 @@ def forward(case, vals: dict, as_list: bool = False):
     TB["energy"] = vals["beam.energy"]
     for fld, d in ct["d"].items():
         TB[fld] = ct["b"][fld] + vals[f"beam.{fld}"] * d
-    out = H.build_lattice_t(case["recs"], T).track(H.make_beam(b, TB))
+    lat, inc = H.build_lattice_t(case["recs"], T), H.make_beam(b, TB)
+    if case.get("merged") and hasattr(lat, "transfer_maps_merged"):
+        # the speed-optimised lattice, rebuilt for every evaluation (also inside the finite differences)
+        lat = lat.transfer_maps_merged(incoming_beam=inc)
+    out = lat.track(inc)
     ys, sc = [], []
     if b["type"] == "ParticleBeam":
         amp = out.particles.detach().abs().reshape(-1, 7).max(dim=0).values[:6]
@@ -259,6 +263,18 @@ def zero_set(case) -> list:
     return out
 
 
+SPECIAL_ANGLES = [float(np.pi / 2), float(-np.pi / 2), float(np.pi)]      # documented settings (vertical / flipped magnets)
+
+
+def special_set(case) -> list:
+    """parameters sitting exactly on a special angle (tilt = +-pi/2, pi)"""
+    out = []
+    for i, r in enumerate(case["recs"]):
+        if "tilt" in r and any(float(r["tilt"]) == a for a in SPECIAL_ANGLES):
+            out.append("tilt" if len(case["recs"]) == 1 else f"el{i}.tilt")
+    return out
+
+
 def param_label(case, key: str) -> str:
     if key.startswith("beam."):
         return key
@@ -271,6 +287,11 @@ def signature(case, f: dict) -> str:
     z = zero_set(case)
     pred = ",".join(f"{n}==0" for n in z) or "generic"
     par = "*" if f["param"] == "*" else param_label(case, f["param"])
+    spec = ",".join(f"{n}==special" for n in special_set(case))
+    if spec:
+        pred = pred + "," + spec if pred != "generic" else spec
+    if case.get("merged"):
+        pred += ",merged"
     return f"C05|{H.lattice_label(case['recs'])}|{pred}|d/d{par}|{case['beam']['type']}|{f['kind']}"
 
 
@@ -279,14 +300,14 @@ def to_replay(case, f: dict) -> dict:
             "beam": {k: (v if isinstance(v, str) else np.asarray(v).tolist()) for k, v in case["beam"].items()},
             "dirs": {k: np.asarray(v).tolist() for k, v in case["dirs"].items()},
             "w": {k: np.asarray(v).tolist() for k, v in case["w"].items()},
-            "param": f["param"], "fail_kind": f["kind"], "diff": f["msg"]}
+            "param": f["param"], "fail_kind": f["kind"], "diff": f["msg"], "merged": bool(case.get("merged"))}
 
 
 def from_replay(r: dict) -> dict:
     return {"recs": r["recs"],
             "beam": {k: (v if k == "type" else np.array(v, dtype=float)) for k, v in r["beam"].items()},
             "dirs": {k: np.array(v, dtype=float) for k, v in r["dirs"].items()},
-            "w": {k: np.array(v, dtype=float) for k, v in r["w"].items()}}
+            "w": {k: np.array(v, dtype=float) for k, v in r["w"].items()}, "merged": bool(r.get("merged"))}
 
 
 # ------------------------------------------------------------------------------------------------
@@ -505,6 +526,9 @@ def explore(ctx, n: int, cache) -> None:
         bt = bts[int(rng.integers(len(bts)))]
         zs = random_zero_set(rng, cls)
         case = make_case(rng, [kind], [zs], bt)
+        if "tilt" in case["recs"][0] and "tilt" not in zs and rng.random() < 0.3:
+            case["recs"][0]["tilt"] = SPECIAL_ANGLES[int(rng.integers(len(SPECIAL_ANGLES)))]
+            rep.count("random:special-tilt")
         rep.count(f"random:{kind}")
         rep.case(("random", kind, tuple(sorted(zs)), bt), {"lattice": H.label(case["recs"][0]), "zero": sorted(zs), "beam": bt})
         examine(ctx, case, known=cache)
@@ -528,9 +552,34 @@ def segments(ctx, n: int, cache) -> None:
             for r in case["recs"]:
                 if r["cls"] == "Aperture":
                     r["xmax"] = r["ymax"] = float("inf")
+        for r in case["recs"]:
+            if "tilt" in r and r["tilt"] != 0.0 and rng.random() < 0.15:
+                r["tilt"] = SPECIAL_ANGLES[int(rng.integers(len(SPECIAL_ANGLES)))]
+        if rng.random() < 0.4:
+            case["merged"] = True
+            rep.count("segment:merged")
         rep.count("segment")
-        rep.case(("segment", H.lattice_label(case["recs"]), str(zero_set(case)), bt),
+        rep.case(("segment", H.lattice_label(case["recs"]), str(zero_set(case)), bt, bool(case.get("merged"))),
                  {"lattice": H.lattice_label(case["recs"]), "zero": zero_set(case), "beam": bt})
+        examine(ctx, case, known=cache)
+
+
+def merged_behind_cavity(ctx, n: int, cache) -> None:
+    """Drift - active Cavity - two or more mergeable elements at low energy, tracked through `transfer_maps_merged`: the merged
+    maps behind the cavity depend on the cavity's settings and on the incoming energy through the beam energy"""
+    rep, rng = ctx.report, ctx.rng
+    for _ in range(n):
+        bt = "ParticleBeam" if rng.random() < 0.5 else "ParameterBeam"
+        tail = [str(rng.choice(["Drift", "Quadrupole", "Drift", "HorizontalCorrector"])) for _ in range(int(rng.integers(2, 4)))]
+        kinds = ["Drift", "Cavity"] + tail
+        case = make_case(rng, kinds, [set() for _ in kinds], bt)
+        cav = case["recs"][1]
+        case["beam"]["energy"] = np.array(float(np.exp(rng.uniform(np.log(4e6), np.log(3e7)))))
+        cav["V"] = float(rng.uniform(0.5, 3.0) * float(case["beam"]["energy"]))
+        cav["phase"] = float(rng.uniform(-30.0, 30.0))
+        case["merged"] = True
+        rep.count("merged-behind-cavity")
+        rep.case(("merged-behind-cavity", H.lattice_label(case["recs"]), bt), {"lattice": H.lattice_label(case["recs"]), "beam": bt})
         examine(ctx, case, known=cache)
 
 
@@ -542,6 +591,7 @@ def run(ctx) -> None:
         sweep(ctx, cache)
         explore(ctx, ctx.n(30, 1200), cache)
         segments(ctx, ctx.n(16, 500), cache)
+        merged_behind_cavity(ctx, ctx.n(4, 120), cache)
     finally:
         torch.set_num_threads(nthreads)
 
